@@ -201,6 +201,25 @@ func runC20(c *Ctx) {
 	for i := len(fx) - 1; i >= 0; i-- {
 		fixtureProperty(c, ev, fx[i], []int{fx[i].Minor}, " (second pass, reverse order, same evaluator)")
 	}
+	// 5. the generators once more: enumerating the fixtures a second time in this process must give the same pods (the ones
+	// just compared with the serialized testdata)
+	if fx2, _, err := pstest.VerifFixtures(); err != nil {
+		c.Violate(Finding{Desc: "second enumeration of the fixtures fails: " + err.Error(), Key: "generators-not-repeatable"})
+	} else if len(fx2) != len(fx) {
+		c.Violate(Finding{Desc: fmt.Sprintf("second enumeration of the fixtures yields %d fixtures, the first %d", len(fx2), len(fx)), Key: "generators-not-repeatable"})
+	} else {
+		shown := 0
+		for i := range fx {
+			c.Eval(1)
+			a, b := fx[i], fx2[i]
+			if a.Level != b.Level || a.Minor != b.Minor || a.Check != b.Check || a.Pass != b.Pass || a.Name != b.Name || !apiequality.Semantic.DeepEqual(a.Pod, b.Pod) {
+				if shown++; shown <= 3 {
+					c.Violate(Finding{Desc: fmt.Sprintf("the in-memory generator gives a different pod for %s/v1.%d/%s/%s when the fixtures are enumerated a second time (the first one matched the serialized testdata)", a.Level, a.Minor, map[bool]string{true: "pass", false: "fail"}[a.Pass], a.Name),
+						Key: "generators-not-repeatable", Input: J{"level": a.Level, "version": fmt.Sprintf("v1.%d", a.Minor), "check": a.Check, "name": a.Name}, Go: J{"first": a.Pod, "second": b.Pod}})
+				}
+			}
+		}
+	}
 	c.Hist["fixtures"] = len(fx)
 	c.Hist["distinct"] = len(dist)
 }
